@@ -144,10 +144,10 @@ func (h *hist) validActionFor(kind, pub string) *action {
 	return h.mkMaxAuth(p, uint32(limit))
 }
 
-func TestC10_SplitMixedHistories(t *testing.T)   { runHistories(t, "C10", profMixed, 40, 100, 1800) }
-func TestC10_SplitFocusedHistories(t *testing.T) { runHistories(t, "C10", profSplit, 40, 100, 1800) }
-func TestC11_StakeMixedHistories(t *testing.T)   { runHistories(t, "C11", profMixed, 40, 100, 1800) }
-func TestC11_StakeCustodyHistories(t *testing.T) { runHistories(t, "C11", profCustody, 40, 100, 1800) }
+func TestC10_SplitMixedHistories(t *testing.T)   { runHistories(t, "C10", profMixed, 40, 200, 9000) }
+func TestC10_SplitFocusedHistories(t *testing.T) { runHistories(t, "C10", profSplit, 40, 200, 9000) }
+func TestC11_StakeMixedHistories(t *testing.T)   { runHistories(t, "C11", profMixed, 40, 200, 9000) }
+func TestC11_StakeCustodyHistories(t *testing.T) { runHistories(t, "C11", profCustody, 40, 200, 9000) }
 
 // prelude builds, through ordinary judged calls, the situation random histories of this length rarely reach: an
 // eighth node ranked below the top K (a candidate that is not a consensus node) on which an authorizer holds a
